@@ -1,5 +1,6 @@
 /* C07: a mechanism is permitted for a key iff it is in the token's configured mechanism list AND (the key's
- * CKA_ALLOWED_MECHANISMS is empty or contains it).  Both conditions, for every key. */
+ * CKA_ALLOWED_MECHANISMS is empty or contains it).  Both conditions, for every key.  A key-less operation (digesting,
+ * key generation: key == NULL) is permitted iff the mechanism is in the configured list. */
 #include "shared.h"
 CK_ULONG vp_in[VP_IN_N];
 CK_ULONG vp_out[VP_OUT_N];
@@ -11,9 +12,10 @@ CK_RV vp_rv;
 #define IN_ALLOWED ((AN >= 1 && OBJX(0, ALLOWED_0) == M) || (AN >= 2 && OBJX(0, ALLOWED_1) == M))
 void vp_mp(void)
 __CPROVER_requires(IN(sm_n) <= 2 && AN <= 2)
-__CPROVER_ensures(OUT(ret) == ((SUPPORTED && (ALLOWED_EMPTY || IN_ALLOWED)) ? 1 : 0))
+__CPROVER_ensures(OUT(ret) == ((SUPPORTED && (IN(key_null) || ALLOWED_EMPTY || IN_ALLOWED)) ? 1 : 0))
+__CPROVER_ensures(IN(key_null) ==> CNT(VALUE_READS) == 0)
 __CPROVER_ensures(CNT(SET) == 0 && CNT(DELETE) == 0)
 __CPROVER_assigns(__CPROVER_object_whole(vp_out), VP_ENV_FRAME);
 void vp_call_isMechanismPermitted(void) { vp_mp(); }
 void h_mp(void) { __CPROVER_havoc_object(vp_in); VP_HAVOC_OBJECTS(); vp_call_isMechanismPermitted();
-  VP_COVER(OUT(ret) && AN == 2); VP_COVER(OUT(ret) && AN == 0); VP_COVER(!OUT(ret) && SUPPORTED); VP_COVER(!OUT(ret) && IN_ALLOWED); }
+  VP_COVER(OUT(ret) && AN == 2); VP_COVER(OUT(ret) && AN == 0); VP_COVER(!OUT(ret) && SUPPORTED); VP_COVER(!OUT(ret) && IN_ALLOWED); VP_COVER(OUT(ret) && IN(key_null) && AN == 2 && !IN_ALLOWED); VP_COVER(!OUT(ret) && IN(key_null)); }
